@@ -2,6 +2,8 @@
 
 use crate::core::Scenario;
 
+pub mod c08;
+pub mod c09;
 pub mod signnode;
 
 pub fn all() -> Vec<Box<dyn Scenario>> {
@@ -9,6 +11,9 @@ pub fn all() -> Vec<Box<dyn Scenario>> {
         Box::new(signnode::SignNode { mode: signnode::Mode::NoPanic }),
         Box::new(signnode::Flood),
         Box::new(signnode::SignNode { mode: signnode::Mode::Refinement }),
+        Box::new(c08::C08),
+        Box::new(c09::C09Real),
+        Box::new(c09::C09Stub),
     ]
 }
 
@@ -42,6 +47,33 @@ pub fn expected_probes(name: &str) -> Vec<&'static str> {
             "abandoned_transfer_then_reset",
         ],
         "c12-flood" => vec!["counter_taken_past_65535"],
+        "c08-recover-and-send" => vec![
+            "prior_state:Unconfigured",
+            "prior_state:ConfigInProgress",
+            "prior_state:ConfigReceived",
+            "prior_state:ConfigFailed",
+            "prior_state:PixelsInProgress",
+            "prior_state:PixelsReceived",
+            "prior_state:PixelsFailed",
+            "prior_state:PageLoaded",
+            "prior_state:PageLoadInProgress",
+            "prior_state:PageShown",
+            "prior_state:PageShowInProgress",
+            "prior_state:ShowingPages",
+            "prior_state:ReadyToReset",
+            "prior_pending_nonempty",
+            "prior_type_different",
+            "prior_type_unknown_custom_config",
+            "crash_mid_reset",
+            "crash_between_chunks",
+            "configure_if_needed_trusted",
+            "configure_if_needed_judged",
+            "shut_down_then_again",
+            "pages_sent:0",
+            "pages_sent:4",
+        ],
+        "c09-real-sign" => vec!["retry_attempt_checked", "three_attempts", "multi_page", "zero_pages", "lost_chunk", "short_chunk", "long_chunk", "bad_count", "bad_offset"],
+        "c09-stub-replier" => vec!["retry_attempt_checked", "three_attempts", "multi_page", "zero_pages", "page_size_differs_from_sign", "stub_reports_failed"],
         _ => vec![],
     }
 }
